@@ -10,8 +10,10 @@ import (
 	"crypto/x509"
 	"encoding/json"
 	"fmt"
+	"io"
 	"sort"
 	"strings"
+	"testing/iotest"
 	"time"
 
 	"github.com/notaryproject/notation-go"
@@ -232,13 +234,13 @@ func runRoundTrip() int {
 				}
 				alg := hashName[map[string]string{"EC-256": "sha256", "RSA-2048": "sha256", "EC-384": "sha384", "RSA-3072": "sha384", "EC-521": "sha512", "RSA-4096": "sha512"}[in.KeySpec]]
 				wantTarget = ocispec.Descriptor{MediaType: cmt, Digest: alg.FromBytes(blob), Size: int64(len(blob)), Annotations: copyMap(meta)}
-				sig, _, err := notation.SignBlob(ctx, sg, bytes.NewReader(blob), notation.SignBlobOptions{SignerSignOptions: sopts, ContentMediaType: cmt, UserMetadata: copyMap(meta)})
+				sig, _, err := notation.SignBlob(ctx, sg, blobReader(blob, mix(*flagSeed, c.ID, "rd")), notation.SignBlobOptions{SignerSignOptions: sopts, ContentMediaType: cmt, UserMetadata: copyMap(meta)})
 				if err != nil {
 					obs.Note = "sign: " + err.Error()
 					return
 				}
 				obs.SignOK = true
-				desc, oc, err := notation.VerifyBlob(ctx, bver, bytes.NewReader(blob), sig, notation.VerifyBlobOptions{ContentMediaType: cmt,
+				desc, oc, err := notation.VerifyBlob(ctx, bver, blobReader(blob, mix(*flagSeed, c.ID, "rd")/5), sig, notation.VerifyBlobOptions{ContentMediaType: cmt,
 					BlobVerifierVerifyOptions: notation.BlobVerifierVerifyOptions{SignatureMediaType: mediaTypeOf(in.Format), TrustPolicyName: "bp", UserMetadata: copyMap(meta)}})
 				if err != nil || oc == nil {
 					obs.Note = fmt.Sprintf("verify: %v", err)
@@ -284,4 +286,19 @@ func runRoundTrip() int {
 		return []traceLine{{ID: c.ID, Variant: in.KeySpec + "/" + in.Format, In: c.In, Obs: obs, Note: obs.Note}}
 	}
 	return runParallel(cases, fn, *flagOut, *flagWorkers)
+}
+
+// blobReader: the blob through io.Readers of different legal manners (all must give the same digest and size)
+func blobReader(blob []byte, salt uint32) io.Reader {
+	switch salt % 5 {
+	case 1:
+		return iotest.DataErrReader(bytes.NewReader(blob)) // the last chunk comes together with io.EOF
+	case 2:
+		return iotest.OneByteReader(bytes.NewReader(blob))
+	case 3:
+		return iotest.HalfReader(bytes.NewReader(blob))
+	case 4:
+		return io.MultiReader(bytes.NewReader(blob[:len(blob)/2]), iotest.DataErrReader(bytes.NewReader(blob[len(blob)/2:])))
+	}
+	return bytes.NewReader(blob)
 }
